@@ -77,6 +77,16 @@ def build(backend):
     add("ev-mixed-dict", f"ds.Select(lambda e: {{'n': {coll}.Count(), 'pts': {coll}.Select(lambda j: j.pt()), 'tg': {coll}.Select(lambda j: j.tags().Select(lambda t: t))}})",
         ["n", "pts", "tg"], [{"int"}, {"std::vector<double>"}, {"std::vector<std::vector<float>>"}])
     add("ev-where-1d", f"ds.Where(lambda e: {coll}.Count() > 0).Select(lambda e: {coll}.Where(lambda j: j.pt() > 0).Select(lambda j: j.nTrk()))", None, [{"std::vector<int>"}])
+    # a declared tree_type decides the column type in every shape (scalar, vector, vector of vectors, inside tuples)
+    tt = ({"metadata_type": "add_method_type_info", "type_string": a.primary_cls, "method_name": "q", "return_type": "float", "tree_type": "double"},)
+    def add_tt(form, q, names, types):
+        cases.append({"form": form, "query": q, "names": names, "types": types, "raises": False, "extra_md": tt})
+    add_tt("tree-type-scalar", per.format("j.q()"), None, [{"double"}])
+    add_tt("tree-type-tuple", per.format("(j.nTrk(), j.q())"), None, [{"int"}, {"double"}])
+    add_tt("tree-type-vector", f"ds.Select(lambda e: {coll}.Select(lambda j: j.q()))", None, [{"std::vector<double>"}])
+    add_tt("tree-type-vector-dict", f"ds.Select(lambda e: {{'n': {coll}.Count(), 'qs': {coll}.Select(lambda j: j.q())}})", ["n", "qs"], [{"int"}, {"std::vector<double>"}])
+    add_tt("tree-type-vector-where", f"ds.Select(lambda e: {coll}.Where(lambda j: j.pt() > 0).Select(lambda j: j.q()))", None, [{"std::vector<double>"}])
+    add_tt("tree-type-2d", f"ds.Select(lambda e: {coll}.Select(lambda j: j.parts().Select(lambda p: p.q())))", None, [{"std::vector<std::vector<double>>"}])
     add("selectmany-scalar", f"ds.SelectMany(lambda e: {coll}.Select(lambda j: j.q()))", None, [{"float"}])
     return cases
 
@@ -172,7 +182,7 @@ def main(tier="quick"):
     for backend in ("atlas", "cms_aod", "cms_miniaod"):
         md = tuple(qgen.method_metadata(qgen.ALPHA[backend]))
         for c in build(backend):
-            cases.append(Case(pid, backend, c["query"], md, c))
+            cases.append(Case(pid, backend, c["query"], tuple(c.get("extra_md", ())) + md, c))
             pid += 1
     res = execute(cases, events, chunk_size=50, post=post)
     # descriptor file name: read from the rendered job configuration, once per backend
